@@ -16,7 +16,12 @@ nr8   == <<"8", "8", "8", "8", "in-addr", "arpa">>
 wex   == <<"*", "example", "lan">>
 wsub  == <<"*", "sub", "example", "lan">>
 
-MCNames == {na, nb, nx, nsub, napex, nbx, no, nrz, nr1, nr2, nr8}
+nvb   == <<"version", "bind">>
+nid   == <<"id", "server">>
+nfoo  == <<"foo", "bind">>
+MCChaosNames == {nvb, nid, nfoo}
+MCChaosKnown == {nvb, nid}
+MCNames == {na, nb, nx, nsub, napex, nbx, no, nrz, nr1, nr2, nr8} \cup MCChaosNames
 MCTypes == {"A", "AAAA", "TXT", "PTR"}
 MCEmptyZones == {nrz}
 
@@ -53,5 +58,6 @@ MCConfigs == [k \in {"AB", "BA", "VA", "ACL", "E"} |-> CASE k = "AB" -> <<LanVie
                                              [] k = "BA" -> <<VpnView, LanView>>
                                              [] OTHER    -> <<>>]
 \* config ACL: lan-then-vpn behind accesslist = [192.168.1.0/24, 100.64.0.0/24]: v6 (in the vpn view) and the outsiders are denied
+MCChaosOn == [k \in {"AB", "BA", "VA", "ACL", "E"} |-> k \in {"AB", "VA", "ACL"}]
 MCAcl == [k \in {"AB", "BA", "VA", "ACL", "E"} |-> IF k = "ACL" THEN {"n24", "nvpn"} ELSE {}]
 =============================================================================
